@@ -79,4 +79,12 @@ def fmtOK : Bool :=
 set_option maxRecDepth 100000 in
 theorem score_rendering : fmtOK = true := by decide +kernel
 
+/-- **What the correspondence check evaluates.** The check feeds the schema with the scores and
+    severities the implementation itself reports for the decoded object (`evalWith`); on the model
+    that is the schema itself: every field, evaluated with the object's own (rendered) scores and
+    severities, is the field of the report. -/
+theorem schema_on_own_scores (o : V3.Obj3) (lang : Nat) (src : Src) :
+    eval o lang src = evalWith (fun l => fmtScore (V3.score l o)) (fun l => V3.severity l o) o lang src :=
+  eval_eq_evalWith o lang src
+
 end CvssVerif.Props.C17
